@@ -65,6 +65,11 @@ def shrink(P, exe, model_ok, tier, fail, budget=40):
     if len(body) - len(keep) <= 1:
         return fail
     clause = fail["clause"]
+    # a hang costs a whole watchdog period (plus its confirmation) per attempt: not shrunk; every
+    # other failure gets a wall-clock budget besides the attempt budget
+    if clause == "terminates":
+        return fail
+    t_end = time.time() + 180.0
     tries = 0
     best = fail
 
@@ -84,7 +89,7 @@ def shrink(P, exe, model_ok, tier, fail, budget=40):
         return None
 
     i = len(body) - 1
-    while i >= 0 and tries < budget:
+    while i >= 0 and tries < budget and time.time() < t_end:
         if body[i].split()[0] not in ("grid", "graph"):
             cand = body[:i] + body[i + 1:]
             g = attempt(cand)
